@@ -125,9 +125,9 @@ class ReceiveReadyControlField(_AbstractHdlcControlField):
                 f"ReceiveReadyControlField can only be 1 bytes. Got {len(in_byte)}"
             )
         value = int.from_bytes(in_byte, "big")
-        control_frame = bool(value & 0b00000001)
+        control_frame = (value & 0b00001111) == 0b00000001
         if not control_frame:
-            raise ValueError("Frame is an information frame not a ReceiveReadyFrame")
+            raise ValueError("Control field is not the one of a ReceiveReadyFrame")
         rsn = (value & 0b11100000) >> 5
         return cls(rsn)
 
@@ -226,7 +226,7 @@ class UnnumberedInformationControlField(_AbstractHdlcControlField):
                 f"InformationControlField can only be 1 bytes. Got {len(in_byte)}"
             )
         value = int.from_bytes(in_byte, "big")
-        is_unnumbered_info_frame = bool(value & 0b00000011)
+        is_unnumbered_info_frame = (value & 0b11101111) == 0b00000011
         if not is_unnumbered_info_frame:
             raise ValueError(
                 "Byte is not representing a UnnumberedInformationControlField."
